@@ -367,7 +367,7 @@ class IndexedSet(MutableSet):
         "symmetric_difference_update(other) -> in-place XOR with other"
         if self is other:
             self.clear()
-        for val in other:
+        for val in self.from_iterable(other):  # each value toggles once
             if val in self:
                 self.discard(val)
             else:
